@@ -440,7 +440,35 @@ def cond_value(program, owner, op, cv, made):
     return tuple(out)
 
 
+_FAILS = {}
+
+
+class Fail(KeyError):
+    """the failures of the scenario: their constructor does not accept .args, so a copy `type(f)(*f.args)` cannot be made, and
+    every object made is remembered so that a waiter can tell the very object from a look-alike"""
+    def __init__(self, label, origin):
+        KeyError.__init__(self, label)
+        self.origin = origin
+
+
+def mkfail(label):
+    f = Fail(label, 'scenario')
+    _FAILS.setdefault(label, []).append(f)
+    return f
+
+
+def lab(e):
+    label = e.args[0] if e.args else None
+    try:
+        known = _FAILS.get(label, ())
+    except TypeError:
+        known = ()
+    return label if any(e is f for f in known) else ('NOT-THE-FAILURE-OBJECT', repr(e))
+
+
 def run_real(program):
+    _FAILS.clear()
+    kept_values = []       # (process, condition value, keys, what it showed when it was received)
     obs = {n: [] for n, _ in program['procs']}
     nobs = {n: [] for n, _ in program.get('natives', [])}
     cbcount = {}
@@ -463,7 +491,7 @@ def run_real(program):
                             v = yield events[op[1]]
                             obs[name].append((env.now, ('val', v)))
                         except KeyError as e:
-                            obs[name].append((env.now, ('exc', e.args[0])))
+                            obs[name].append((env.now, ('exc', lab(e))))
                     elif k == 'waitraise':
                         v = yield events[op[1]]
                         obs[name].append((env.now, ('val', v)))
@@ -472,13 +500,13 @@ def run_real(program):
                             v = yield procs[op[1]]
                             obs[name].append((env.now, ('val', v)))
                         except KeyError as e:
-                            obs[name].append((env.now, ('exc', e.args[0])))
+                            obs[name].append((env.now, ('exc', lab(e))))
                     elif k in ('succeed', 'fail'):
                         try:
                             if k == 'succeed':
                                 events[op[1]].succeed(op[2])
                             else:
-                                events[op[1]].fail(KeyError(op[2]))
+                                events[op[1]].fail(mkfail(op[2]))
                             obs[name].append((env.now, ('ok',)))
                         except RuntimeError:
                             obs[name].append((env.now, ('already',)))
@@ -507,8 +535,9 @@ def run_real(program):
                         try:
                             cv = yield make(k, op[1], ('c',) + owner)
                             obs[name].append((env.now, ('val', tuple((keys[ev], cv[ev]) for ev in cv))))
+                            kept_values.append((name, cv, keys, tuple((keys[ev], cv[ev]) for ev in cv)))
                         except KeyError as e:
-                            obs[name].append((env.now, ('exc', e.args[0])))
+                            obs[name].append((env.now, ('exc', lab(e))))
                     elif k == 'native':
                         if op[1] == 'delay':
                             yield (time + op[2])
@@ -536,7 +565,7 @@ def run_real(program):
                     elif k == 'return':
                         return op[1]
                     elif k == 'raise':
-                        raise KeyError(op[1])
+                        raise mkfail(op[1])
                 except Interrupt as irq:
                     obs[name].append((env.now, ('irq', irq.cause)))
             return None
@@ -586,14 +615,14 @@ def run_real(program):
                             v = await (events[op[1]] if k == 'await' else procs[op[1]])
                             nobs[name].append((time.now, ('val', v)))
                         except KeyError as e:
-                            nobs[name].append((time.now, ('exc', e.args[0])))
+                            nobs[name].append((time.now, ('exc', lab(e))))
                     elif k == 'awaitfor':
                         got = []
                         try:
                             async with usim_until(time + op[2]):
                                 got.append(('val', await events[op[1]]))
                         except KeyError as e:
-                            got.append(('exc', e.args[0]))
+                            got.append(('exc', lab(e)))
                         nobs[name].append((time.now, got[0] if got else ('gaveup',)))
 
             async def main():
@@ -641,7 +670,7 @@ def run_real(program):
             else:
                 result = ('returned', value)
     except KeyError as e:
-        return (('raised', e.args[0]), None, None, None), cbcount, holder
+        return (('raised', lab(e)), None, None, None), cbcount, holder
     except RuntimeError as e:
         if "'until' event was not triggered" in str(e):
             result = ('raised', 'RuntimeError')
@@ -649,6 +678,14 @@ def run_real(program):
             return (('raised', 'RuntimeError:' + str(e)[:60]), None, None, None), cbcount, holder
     except BaseException as e:      # noqa
         return (('raised', type(e).__name__ + ':' + str(e)[:60]), None, None, None), cbcount, holder
+    # a condition value is what had fired when the condition fired: looked at again after the run it shows the same
+    for name, cv, keys, then in kept_values:
+        try:
+            now_ = tuple((keys[ev], cv[ev]) for ev in cv)
+        except BaseException as e:      # noqa
+            now_ = ('raised', repr(e))
+        if now_ != then:
+            obs[name].append(('after the run', ('condition value changed from', then, 'to', now_)))
     o = tuple((n, tuple(obs[n])) for n, _ in program['procs'])
     no = tuple((n, tuple(nobs[n])) for n, _ in program.get('natives', []))
     return (result, o, no, holder.get('now')), cbcount, holder
